@@ -218,7 +218,7 @@ def admissible(cps, n, m):
     return all(b[i + 1] - b[i] >= m for i in range(len(b) - 1))
 
 
-def judge(C, n, m, beta, F, scores, cps):
+def judge(C, n, m, beta, F, scores, cps, close=close):
     """Compare the outputs with the statement; returns a list of (aspect, clause, message)."""
     out = []
     scores = np.asarray(scores, dtype=float).reshape(-1)
@@ -314,12 +314,17 @@ class Ctx:
                 f["_rank"], f["smallest"] = rank, summary
 
 
-def check_case(ctx, family, spec, X, m, beta, kappa, C, via, n_train=None, fp=None):
-    """One execution of the real code + comparison.  `C` is the oracle cost matrix.  Returns the list of findings."""
+def check_case(ctx, family, spec, X, m, beta, kappa, C, via, n_train=None, fp=None, unit=None):
+    """One execution of the real code + comparison.  `C` is the oracle cost matrix.  Returns the list of findings.
+    `unit`: every cost, penalty and score of the case is an (almost) exact multiple of this unit; comparisons are then made
+    to a thousandth of the unit instead of the default relative-plus-absolute 1e-9 (which is blind below 1e-9 and above 1e9)."""
     rec = ctx.rec
     n = len(X)
     F, best = brute_force(C, n, m, beta)
+    eq = close if unit is None else (lambda a, b: bool(abs(float(a) - float(b)) <= 1e-3 * unit))
     inp = {"via": via, "cost": {"kind": spec["kind"]}, "X": X, "m": m, "penalty": beta, "split_cost": kappa}
+    if unit is not None:
+        inp["unit"] = unit
     if spec["kind"] == "table":
         inp["cost"].update(table=table_to_json(spec["table"]), min_size=spec["min_size"])
     if n_train is not None:
@@ -329,16 +334,16 @@ def check_case(ctx, family, spec, X, m, beta, kappa, C, via, n_train=None, fp=No
     try:
         if via == "run_pelt":
             scores, cps = call_direct(cost_obj, X, beta, m, kappa)
-            findings = judge(C, n, m, beta, F, scores, cps)
+            findings = judge(C, n, m, beta, F, scores, cps, eq)
         else:
             beta_used, ts, attr, cps = call_class(cost_obj, X, beta, m, n_train)
-            if not close(beta_used, beta):          # the fitted penalty is what the detector minimises with
+            if not eq(beta_used, beta):          # the fitted penalty is what the detector minimises with
                 F, best = brute_force(C, n, m, beta_used)
             findings = []
             for which, one in zip(("first transform_scores after the refit: ", "transform_scores after calls on another series: "), ts):
-                findings = findings or [(a, c, which + msg) for a, c, msg in judge(C, n, m, beta_used, F, one, cps)]
+                findings = findings or [(a, c, which + msg) for a, c, msg in judge(C, n, m, beta_used, F, one, cps, eq)]
             if not findings:
-                findings = [(a, c, ".scores attribute: " + msg) for a, c, msg in judge(C, n, m, beta_used, F, attr, cps)]
+                findings = [(a, c, ".scores attribute: " + msg) for a, c, msg in judge(C, n, m, beta_used, F, attr, cps, eq)]
     except Exception as e:      # every case is a valid configuration (n >= 2m, m >= cost.min_size, penalty >= 0)
         findings = [("raises:" + type(e).__name__, "C02.minimiser", f"{type(e).__name__}: {str(e)[:120]}")]
     has_cp, prunes, tie = case_flags(C, n, m, beta_used, kappa, F, best)
@@ -495,12 +500,50 @@ def run(tier="quick", seed=0, repo="/repo"):
             continue
         data_case(kind, X, class_stride=(13 if quick else 19))
 
+    # --- D. the same on other scales: near-tied, unequal candidates ------------------------------------------------------------
+    #     costs in units of 2**-30 (differences far below 1e-8) and costs with a per-sample offset of 2**30 (differences far below
+    #     1e-5 of the values); powers of two, so every table entry, penalty and sum is exact in float64 and the optimum is as
+    #     well separated (in units) as in sections A-C.  The statement has no scale: the minimiser must still be the minimiser.
+    n_scaled = 60 if quick else 900
+    for j in range(n_scaled):
+        m = int(rng.integers(1, 4))
+        n = int(rng.integers(2 * m, 10))
+        ms = m if rng.random() < 0.5 else 1
+        kappa = float(rng.choice([0.0, 0.0, 1.0]))
+        T = random_table(rng, n, ms, kappa)
+        unit, offset = (2.0 ** -30, 0.0) if j % 2 == 0 else (1.0, 2.0 ** 30)
+        length = np.subtract.outer(np.arange(n + 1), np.arange(n + 1)).T.astype(float)       # length[s, e] = e - s
+        T2 = T * unit + offset * length
+        assert split_inequality_holds(T2, n, ms, kappa * unit, tol=0.0)
+        spec = {"kind": "table", "table": T2, "min_size": ms}
+        fam_name = f"table,{'unit 2^-30' if offset == 0.0 else 'offset 2^30 per sample'}"
+        for beta in PENALTIES:
+            i = next(counter)
+            check_case(ctx, fam_name, spec, np.zeros((n, 1)), m, beta * unit, kappa * unit, T2, "run_pelt", unit=unit)
+            if kappa == 0 and i % 7 == 0:
+                check_case(ctx, fam_name + "/class", spec, np.zeros((n, 1)), m, beta * unit, 0.0, T2, "class", unit=unit)
+    for j in range(40 if quick else 600):
+        n = int(rng.integers(6, 10))
+        p = int(rng.integers(1, 3))
+        X = rng.integers(-3, 4, size=(n, p)).astype(float) * 2.0 ** -15
+        make, msf, definition = builtin("L2Cost")
+        C = cost_matrix(X, 1, definition)
+        unit = 2.0 ** -30
+        for m in (1, 2, 3):
+            if n < 2 * m:
+                continue
+            for beta in PENALTIES:
+                i = next(counter)
+                check_case(ctx, "L2Cost,data in units of 2^-15," + mclass(m), {"kind": "L2Cost"}, X, m, beta * unit, 0.0, C,
+                           "run_pelt" if i % 3 else "class", unit=unit)
+
     fam = {k: {kk: vv for kk, vv in v.items() if kk != "_rank"} for k, v in sorted(ctx.family.items())}
     return rec.result(
         RULE,
         "n <= 9, min_segment_length <= 3, penalty in {0,0.5,1,2,4}, split cost in {0,1}; integer table costs (values -3..6, slacks 0..6; "
         f"complete over the listed small scopes, {n_random} random tables) and L2/Gaussian costs on integer data "
-        f"(all of {{0,1,2}}^n for n <= {n_exh}, {n_data} random series with entries in -3..3, p <= 2)",
+        f"(all of {{0,1,2}}^n for n <= {n_exh}, {n_data} random series with entries in -3..3, p <= 2); {n_scaled} of the random tables "
+        "again in units of 2^-30 / with an offset of 2^30 per sample, L2Cost on data in units of 2^-15",
         exhaustive=False, exhaustive_subscopes=exhaustive_scopes, by_family=fam, cases_with_tie_at_pruning_boundary=ctx.ties,
         table_runs_with_measured_pruning=ctx.pruned_measured, oracle_selfchecks=ctx.oracle_checks,
         skipped_outside_hypothesis=ctx.skipped)
@@ -521,10 +564,11 @@ def replay(inp, repo="/repo"):
         make, msf, definition = builtin(spec["kind"])
         ms = msf(X.shape[1])
         C = cost_matrix(X, ms, definition)
-    if C is None or not split_inequality_holds(C, n, ms, kappa) or n < 2 * m or m < ms:
+    if C is None or not split_inequality_holds(C, n, ms, kappa, tol=(1e-9 if inp.get("unit") is None else 0.0)) or n < 2 * m or m < ms:
         return {"violated": False, "detail": "input outside the hypothesis of the statement"}
     rec = Recorder()
     ctx = Ctx(rec)
     oracle_selfcheck(ctx, C, n, m, beta)
-    findings = check_case(ctx, "replay", spec, X, m, beta, kappa, C, inp.get("via", "run_pelt"), n_train=inp.get("n_train"))
+    findings = check_case(ctx, "replay", spec, X, m, beta, kappa, C, inp.get("via", "run_pelt"), n_train=inp.get("n_train"),
+                          unit=inp.get("unit"))
     return {"violated": bool(findings), "detail": rec.violations[0]["what"] if rec.violations else "holds"}
